@@ -75,8 +75,10 @@ Definition nonempty (l : list string) : list string := filter (fun s => negb (St
 Definition literals_okb : bool :=
   same_set (nonempty lits_xml_marshal_all)
            ("osm" :: "osmChange" :: header_attr_names
-            ++ ["create"; "modify"; "delete"; "type"; "old"; "new"; "comment"; "bounds"])%list
-  && same_set (nonempty lits_xml_unmarshal_all) ["type"; "old"; "new"; "node"; "way"; "relation"]
+            ++ ["create"; "modify"; "delete"; "type"; "old"; "new"; "comment"; "bounds";
+                "2006-01-02 15:04:05 MST"])%list
+  && same_set (nonempty lits_xml_unmarshal_all)
+              ["type"; "old"; "new"; "node"; "way"; "relation"; "2006-01-02 15:04:05 MST"]
   && same_set (nonempty lits_scanner_all) (map fst scan_kinds)
   && strs_eqb (map fst scan_kinds) (map fst object_kinds)
   && String.eqb c_dateLayout "2006-01-02 15:04:05 MST".
